@@ -544,6 +544,8 @@ struct Sys {
     next_h: u64,
     next_c: u64,
     drive_log: Vec<Value>,
+    /// the next holder update is followed, before its revocation, by a validation of the commitment after it
+    lookahead_next: bool,
     hash_ctr: u8,
     dead: bool, // a commitment update panicked: the channel lock is poisoned
     proto: u32,
@@ -647,6 +649,7 @@ impl Sys {
             next_h: 0,
             next_c: 0,
             drive_log: vec![],
+            lookahead_next: false,
             hash_ctr: 0,
             dead: false,
         }
@@ -822,6 +825,8 @@ impl Sys {
             return false; // the signer's balance bookkeeping asserts on an overspending commitment
         }
         let n = self.next_h;
+        let lookahead = self.lookahead_next && revoke && n >= 1 && offered.is_empty() && received.is_empty() && to_h > 200_000;
+        self.lookahead_next = false;
         let off = self.htlcs(offered);
         let rec = self.htlcs(received);
         let node = self.node.clone();
@@ -839,6 +844,16 @@ impl Sys {
             })?;
             if !revoke {
                 return Ok(false);
+            }
+            if lookahead {
+                // the counterparty sends (validly signed) the commitment AFTER this one before this one is
+                // revoked: whatever the signer answers, the commitment that becomes current below is n
+                let (lh, lc) = (to_h - 100_000, to_c + 100_000);
+                let mut ctx2 = channel_commitment(&nctx, cctx, n + 1, 1000, lh, lc, vec![], vec![]);
+                let (sig2, hsigs2) = counterparty_sign_holder_commitment(&nctx, cctx, &mut ctx2);
+                let _ = node.with_channel(&cid, |c| {
+                    c.validate_holder_commitment_tx_phase2(n + 1, 1000, lh, lc, vec![], vec![], &sig2, &hsigs2)
+                });
             }
             node.with_channel(&cid, |c| {
                 if n == 0 {
@@ -859,7 +874,8 @@ impl Sys {
             Err(_) => "panic",
         };
         self.drive_log.push(json!({"holder_commitment": n, "to_holder": to_h, "to_counterparty": to_c,
-            "offered_htlcs": offered, "received_htlcs": received, "result": st}));
+            "offered_htlcs": offered, "received_htlcs": received, "result": st,
+            "then_validated_the_commitment_after_it_before_revoking": lookahead}));
         if let Ok(Ok(true)) = r {
             self.ledger_holder = Some(Content { to_h, to_c, n_offered: offered.len() as u64, n_received: received.len() as u64 });
             self.next_h = n + 1;
@@ -1944,6 +1960,7 @@ fn run(args: &Args) {
             if sys.next_h == 0 || sys.next_c == 0 || sys.next_c == u64::MAX {
                 break;
             }
+            sys.lookahead_next = rng.chance(1, 4);
             if holder_first {
                 do_holder(&mut sys, &mut rng);
                 if rng.chance(7, 8) {
